@@ -691,6 +691,9 @@ def realTimeNoteOn (channel0 note0 velocity0 : Nat) : M Bool := do
   | none => return false
   | some c =>
   prepareChipChannelForNewNote c ains.op
+  -- a chip channel lists at most 128 users: a note that cannot be listed is unplaceable (it must not refer to the channel)
+  let ccNow ← getChip c
+  if ccNow.users.length == 128 && !(ccNow.users.any (·.isLoc channel note)) then return false
   let chNow ← getMidi channel
   let vel := if chNow.softPedal then velocity * 4 / 5 else velocity
   let portaEnable := chNow.portamentoEnable && chNow.portamentoRateSet && !r.isPerc
